@@ -33,6 +33,13 @@ P = {
             "the empty fallback, values class-clean and trimmed at both ends, consumed head free of NUL and of CR not followed by LF. PARTIAL: for "
             "folded values the clause 'CRLF/LF only directly before SP/HTAB' is carried by the extracted oracle check_C05 + correspondence, not by a theorem.",
             "Coq proof (class lemmas per reference stage + generic segment pass), + extracted oracle on the implementation"),
+    "C11": ("proof",
+            "Theorems request/response/headers/chunk_partial_completable, response_never_token, early_error_request/response (Thm/C11.v): "
+            "whenever the model answers Partial there is an explicit continuation on which the same call answers Complete, or hits one of the two "
+            "deferred checks -- TooManyHeaders, or (requests only) Token with the buffer ending in a request-target run that is not valid UTF-8. "
+            "For every backend, entry point, config, capacity, buffer. The UTF-8 exception is stated on the bytes received so far (a target that "
+            "ends inside a multi-byte sequence counts as deferred).",
+            "Coq proof (constructive completion per grammar stage + stability under append + refinement), + finite-completion-set runs on the implementation"),
     "C06": ("proof",
             "Theorem request_ref_eq / request_entries_ref_eq (Thm/C06.v): the model of all four request entry points equals the span-level "
             "reference grammar ref_request for every backend satisfying EnvOk, config, capacity and buffer (unbounded). Tie: model vs crate "
